@@ -1311,3 +1311,10 @@ mod tests {
         Ok(())
     }
 }
+
+/// Verification harness bodies with access to this module's private items (feature `verif`).
+#[cfg(feature = "verif")]
+#[doc(hidden)]
+#[allow(missing_docs, missing_debug_implementations, dead_code, unused)]
+#[path = "/verif/kani/incrate/store_fs.rs"]
+pub mod verif_incrate;
